@@ -514,7 +514,8 @@ struct Alpha {
     std::vector<int> rooms;             // out-view room for extract_front/back(n, view)
     std::vector<int> slice_rooms; int slice_counts;   // slice_counts 0: every count 0..T+extra; 1: {1,2,T+1}
     std::vector<const Shape*> partners; // shapes of the other vector
-    int size_mode;                      // 0: 0..max(T,Td)+1 and SIZE_MAX; 1: {0,1,2,3,SIZE_MAX}
+    int size_mode;                      // 0: 0..max(T,Td)+1 and SIZE_MAX; 1: `sizes` and SIZE_MAX
+    std::vector<int> sizes;
     std::vector<int> push_sizes;
     bool iov_partner_copy;              // also memcpy_to/from(iovector*) (thin wrappers)
     std::vector<Op> cache[2][16]; bool have[2][16];
@@ -546,7 +547,7 @@ static const std::vector<Op>& ops_for(Alpha& al, bool vec, int T) {
     for (int cnt : counts) for (int off = 0; off <= K; off++) for (int r : al.slice_rooms) add(v, K_SLICE, cnt, off, r);
     for (const Shape* p : al.partners) {
         std::vector<int> sizes;
-        if (al.size_mode == 0) { for (int s = 0; s <= std::max(T, p->total) + 1; s++) sizes.push_back(s); } else sizes = {0, 1, 2, 3};
+        if (al.size_mode == 0) { for (int s = 0; s <= std::max(T, p->total) + 1; s++) sizes.push_back(s); } else sizes = al.sizes;
         sizes.push_back(-1);
         for (int s : sizes) {
             add(v, K_CPY_TO_VIEW, s, 0, 0, p); add(v, K_CPY_FROM_VIEW, s, 0, 0, p); add(v, K_PIPE_TO_VIEW, s, 0, 0, p); add(v, K_PIPE_FROM_VIEW, s, 0, 0, p);
@@ -649,7 +650,7 @@ static void seqx_enumerate(seqx::Ctx& c, bool thorough) {
     an.extra = 2; an.rooms = {0, 1}; an.slice_rooms = {0, 1}; an.slice_counts = 0;
     for (const char* p : {"[]", "[1]", "[0,2]"}) an.partners.push_back(find_shape(p));
     an.partners.push_back(&g_null);
-    an.size_mode = 1; an.push_sizes = {1}; an.iov_partner_copy = false;
+    an.size_mode = 1; an.sizes = {0, 1, 2, 3}; an.push_sizes = {1}; an.iov_partner_copy = false;
     const Op* seq[1];
     for (auto& o1 : ops_for(an, false, 0)) { if (!c.begin("V shape={nullptr,0} | %s", o1.str)) continue; seq[0] = &o1; run_case(c, false, g_null, seq, 1); }
     for (int vec = 0; vec <= 1; vec++)
@@ -662,18 +663,27 @@ static void seqx_enumerate(seqx::Ctx& c, bool thorough) {
             }
         }
 #else
-    // sequences of 2 operations
-    static Alpha a2;
+    // sequences of 2 operations (the first one mutating, the second any)
+    static Alpha a2, b2;
     a2.extra = 2; a2.rooms = {1, 2, 5}; a2.slice_rooms = {1, 5}; a2.slice_counts = 0;
     for (const char* p : {"[]", "[0]", "[1]", "[3]", "[1,2]", "[2,0,1]", "[0,1,0,3]"}) a2.partners.push_back(find_shape(p));
     a2.size_mode = 0; a2.push_sizes = {0, 1, 2}; a2.iov_partner_copy = false;
-    enum_depth(c, a2, pick_shapes(thorough ? 4 : 3, 3), 2);
-    if (thorough) {
-        // sequences of 3 operations, reduced alphabet
+    b2.extra = 2; b2.rooms = {1, 5}; b2.slice_rooms = {5}; b2.slice_counts = 0;      // smaller alphabet for the largest shapes of the tier
+    for (const char* p : {"[]", "[1]", "[1,2]", "[0,1,0,3]"}) b2.partners.push_back(find_shape(p));
+    b2.size_mode = 0; b2.push_sizes = {0, 1, 2}; b2.iov_partner_copy = false;
+    std::vector<const Shape*> upto2, upto3, only3, only4;
+    for (auto& s : g_shapes) { if (s.n <= 2) upto2.push_back(&s); if (s.n <= 3) upto3.push_back(&s); if (s.n == 3) only3.push_back(&s); if (s.n == 4) only4.push_back(&s); }
+    if (!thorough) {
+        enum_depth(c, a2, upto2, 2);
+        enum_depth(c, b2, only3, 2);
+    } else {
+        enum_depth(c, a2, upto3, 2);
+        enum_depth(c, b2, only4, 2);
+        // sequences of 3 operations (the first two mutating), reduced alphabet
         static Alpha a3;
-        a3.extra = 1; a3.rooms = {1, 5}; a3.slice_rooms = {5}; a3.slice_counts = 1;
-        for (const char* p : {"[]", "[2]", "[1,0,2]"}) a3.partners.push_back(find_shape(p));
-        a3.size_mode = 1; a3.push_sizes = {0, 2}; a3.iov_partner_copy = false;
+        a3.extra = 1; a3.rooms = {2}; a3.slice_rooms = {5}; a3.slice_counts = 1;
+        for (const char* p : {"[]", "[1,0,2]"}) a3.partners.push_back(find_shape(p));
+        a3.size_mode = 1; a3.sizes = {0, 1, 3}; a3.push_sizes = {0, 2}; a3.iov_partner_copy = false;
         enum_depth(c, a3, pick_shapes(3, 2), 3);
     }
 #endif
@@ -684,5 +694,5 @@ SEQX_MAIN("C14", "single", "every single operation of iovector_view (V) and IOVe
 #elif C14_PART == 3
 SEQX_MAIN("C14", "nullview", "the default-constructed empty iovector_view (iov == nullptr, iovcnt == 0) as the subject of every single operation (counts 0..2, room {0,1}, other vectors {[],[1],[0,2],null}, sizes {0,1,2,3,SIZE_MAX}) and as the other vector of memcpy_to/from and pipe_to/from on V and I subjects of shapes {[],[1],[0,2]}; reference = the empty byte string; distinct = (object kind, op kind, relation class, crashed or not)")
 #else
-SEQX_MAIN("C14", "seq", "every sequence of 2 operations (first one mutating) over shapes of 0..3 (quick) / 0..4 (thorough) elements with sizes {0,1,2,3}, alphabet: counts 0..total+2, out-view room {1,2,5}, slice room {1,5}, other-vector shapes {[],[0],[1],[3],[1,2],[2,0,1],[0,1,0,3]}; thorough adds every sequence of 3 operations (first two mutating) over shapes of 0..3 elements with sizes {0,1,2}, counts 0..total+1, room {1,5}, other-vector shapes {[],[2],[1,0,2]}, sizes {0,1,2,3,SIZE_MAX}; the model is compared after every operation; distinct = (object kind, family of the earlier ops, full relation class of the last op as in target single)")
+SEQX_MAIN("C14", "seq", "every sequence of 2 operations (first one mutating) on V and I: quick = shapes of 0..2 elements with alphabet A and 3 elements with alphabet B; thorough = 0..3 elements with A and 4 elements with B; element sizes {0,1,2,3}; A: counts/offsets 0..total+2, out-view room {1,2,5}, slice room {1,5}, other-vector shapes {[],[0],[1],[3],[1,2],[2,0,1],[0,1,0,3]}, sizes 0..max(total,other)+1 and SIZE_MAX; B: room {1,5}, slice room {5}, other-vector shapes {[],[1],[1,2],[0,1,0,3]}; thorough adds every sequence of 3 operations (first two mutating) over shapes of 0..3 elements with sizes {0,1,2}: counts 0..total+1, room {2}, slice counts {1,2,total+1} room 5, other-vector shapes {[],[1,0,2]}, sizes {0,1,3,SIZE_MAX}; the model is compared after every operation; distinct = (object kind, family of the earlier ops, full relation class of the last op as in target single)")
 #endif
